@@ -1,4 +1,5 @@
 import GrinVerif.Props.C19
+import GrinVerif.Lemmas.DecBound
 /-! # C19 — the length limit of every message type is exactly the regenerated table
 
 `Gen/Msg.lean` (tools/gen_msg.py) regenerates `max_msg_size`, the 4× allowance, the default for unknown
@@ -77,5 +78,72 @@ theorem limits_independent_of_version (env1 env2 : Env B H) (hnet : env1.net = e
     (stepState env1 ({ buffer := encHeader env1.net t len, state := .none } : Codec H) 11).isLeft =
     (stepState env2 ({ buffer := encHeader env2.net t len, state := .none } : Codec H) 11).isLeft := by
   rw [header_step_exact env1 t len h64, header_step_exact env2 t len h64, hnet]
+
+/-! ## item counts of the list-carrying messages -/
+
+/-- **the count gates are the closed bounds**: `PeerAddrs` with up to and including `MAX_PEER_ADDRS` = 256
+entries and a locator with up to and including `MAX_LOCATORS` = 20 hashes pass, one more is refused
+(the predicates are regenerated from `p2p/src/msg.rs` WITH their comparison operator: `>` turned into
+`>=` - the honest maximum refused - breaks this theorem) -/
+theorem list_count_gates_closed :
+    (∀ n, peerAddrsCountRefused n = false ↔ n ≤ 256) ∧ (∀ n, peerAddrsCountRefused n = true ↔ 257 ≤ n) ∧
+    (∀ n, n < 256 → (locatorCountRefused n = false ↔ n ≤ 20)) ∧ (∀ n, n < 256 → (locatorCountRefused n = true ↔ 21 ≤ n)) ∧
+    GV.Gen.MAX_PEER_ADDRS = 256 ∧ GV.Gen.MAX_LOCATORS = 20 ∧ GV.Gen.MAX_BLOCK_HEADERS = 512 := by
+  have e1 : GV.Gen.MAX_PEER_ADDRS = 256 := rfl
+  have e2 : GV.Gen.MAX_LOCATORS % 256 = 20 := rfl
+  refine ⟨fun n => ?_, fun n => ?_, fun n _ => ?_, fun n _ => ?_, rfl, rfl, rfl⟩
+  · unfold peerAddrsCountRefused; rw [e1, decide_eq_false_iff_not]; omega
+  · unfold peerAddrsCountRefused; rw [e1, decide_eq_true_eq]; omega
+  · unfold locatorCountRefused; rw [e2, decide_eq_false_iff_not]; omega
+  · unfold locatorCountRefused; rw [e2, decide_eq_true_eq]; omega
+
+/-- **the reader's gate is the generated one** (`Readable for PeerAddrs`): a body announcing `n` entries
+is refused with `TooLargeReadErr` before any entry is read or any vector allocated iff the generated
+predicate says so; otherwise exactly `n` entries are read -/
+theorem peer_addrs_gate {P : Type} (rd : Rdr) (n : Nat) (h32 : n < 2^32) (rest : Bytes) :
+    decPeerAddrs (P := P) rd (writeU32 n ++ rest) =
+      if peerAddrsCountRefused n then .err .tooLarge 0
+      else if n = 0 then .ok (.peerAddrs []) rest 0
+      else (withCapacity n PEER_ADDR_MEM
+        (GV.Dec.bind (readN (decPeerAddr rd) n rest) fun ps r => .ok (.peerAddrs ps) r 0)).addAlloc 0 := by
+  unfold decPeerAddrs
+  have hr : rU32 (writeU32 n ++ rest) = .ok n rest 0 := by simp [rU32, readU32_write n h32, GV.Dec.lift]
+  rw [hr, bind_ok]
+  by_cases h1 : n > GV.Gen.MAX_PEER_ADDRS
+  · simp [peerAddrsCountRefused, h1, Outcome.addAlloc]
+  · by_cases h2 : n = 0
+    · simp [peerAddrsCountRefused, h2, Outcome.addAlloc]
+    · simp [peerAddrsCountRefused, h1, h2]
+
+/-- … and of the locator (`Readable for Locator`, count byte `n`) -/
+theorem locator_gate {P : Type} (rd : Rdr) (n : Nat) (rest : Bytes) :
+    decLocator (P := P) rd (n :: rest) =
+      if locatorCountRefused n then .err .tooLarge 0
+      else (withCapacity n 32 (GV.Dec.bind (readN (rHash rd) n rest) fun hs r => .ok (.locator hs) r 0)).addAlloc 0 := by
+  unfold decLocator
+  rw [rU8_cons, bind_ok]
+  by_cases h1 : n > GV.Gen.MAX_LOCATORS % 256
+  · simp [locatorCountRefused, h1, Outcome.addAlloc]
+  · simp [locatorCountRefused, h1]
+
+/-- **the reader accepts exactly the writer's range**: the writers put a count of up to the maximum in
+front (`find_peers(.., MAX_PEER_ADDRS)`, at most `MAX_LOCATORS` locator hashes); for these counts, and
+only for these, the gate lets the body through -/
+theorem reader_accepts_writers_range (n : Nat) :
+    (n ≤ GV.Gen.MAX_PEER_ADDRS ↔ peerAddrsCountRefused n = false) ∧
+    (n < 256 → (n ≤ GV.Gen.MAX_LOCATORS ↔ locatorCountRefused n = false)) := by
+  have e1 : GV.Gen.MAX_PEER_ADDRS = 256 := rfl
+  have e2 : GV.Gen.MAX_LOCATORS % 256 = 20 := rfl
+  have e3 : GV.Gen.MAX_LOCATORS = 20 := rfl
+  constructor
+  · unfold peerAddrsCountRefused; rw [decide_eq_false_iff_not]; omega
+  · intro _
+    unfold locatorCountRefused; rw [e2, e3, decide_eq_false_iff_not]; omega
+
+/-- the maximum itself fits the frame limit of its type with every entry an IPv6 address (19 bytes), so
+a full `PeerAddrs` / locator / `Headers` answer is never refused by the frame header either -/
+example : 4 + 19 * GV.Gen.MAX_PEER_ADDRS ≤ maxLen netMainnet T_PeerAddrs ∧
+    1 + 32 * GV.Gen.MAX_LOCATORS ≤ maxLen netMainnet T_GetHeaders ∧
+    2 + 365 * GV.Gen.MAX_BLOCK_HEADERS ≤ maxLen netMainnet T_Headers := by decide
 
 end GV.Props.C19Limits
